@@ -456,6 +456,17 @@ func (m *Metadata) Validate(data map[string]any, currentVersion ...string) Valid
 						Severity: Error,
 					})
 				}
+				// for a list of strings, none of the elements may be empty
+				if arr, ok := v.([]any); ok {
+					for i, a := range arr {
+						if isString(a) && a.(string) == "" {
+							results = append(results, ValidationResult{
+								Message:  fmt.Sprintf("field %s[%d] must not be empty", k, i),
+								Severity: Error,
+							})
+						}
+					}
+				}
 			case "elementType":
 				switch val := v.(type) {
 				case []any:
